@@ -31,6 +31,7 @@ type Inserter struct {
 	tbl         *objects.Table
 	asyncBlocks []asyncBlock
 	rowsCount   uint32
+	mu          sync.Mutex // guards asyncBlocks and rowsCount, shared by the workers
 	wg          sync.WaitGroup
 	errChan     chan error
 	blocks      <-chan *sorter.Block
@@ -87,7 +88,9 @@ func (i *Inserter) insertBlock() {
 			return
 		}
 		vhook.Yield("ins.count")
+		i.mu.Lock()
 		i.rowsCount += uint32(blk.RowsCount)
+		i.mu.Unlock()
 
 		// write block index and add pk sums to table index
 		idx, err := objects.IndexBlockFromBytes(dec, hash, e, blk.Block, i.tbl.PK)
@@ -103,6 +106,7 @@ func (i *Inserter) insertBlock() {
 			return
 		}
 		i.logger.Info("index block", "blockSum", sum, "indexSum", blkIdxSum)
+		i.mu.Lock()
 		vtok := vhook.Enter("ins.pub")
 		i.asyncBlocks = append(i.asyncBlocks, asyncBlock{
 			Offset: blk.Offset,
@@ -111,6 +115,7 @@ func (i *Inserter) insertBlock() {
 			PK:     blk.PK,
 		})
 		vhook.Leave("ins.pub", vtok)
+		i.mu.Unlock()
 		vhook.Event("ins.published", "off", blk.Offset, "rows", blk.RowsCount)
 		if i.pt != nil {
 			i.pt.Incr()
